@@ -381,6 +381,36 @@ func checkHelpers(r *vp.Recorder) {
 		}
 	}
 	gen(nil)
+	// longer lists over a small alphabet: every pattern of {nil entry, a public
+	// HTTP address, a private address} of length maxLen+1 .. 8 (in-place
+	// compaction loops go wrong only when several holes meet)
+	small3 := []int{-1, -1, -1}
+	for i, a := range addrAlphabet {
+		switch {
+		case a.s == "" && small3[0] < 0:
+			small3[0] = i
+		case a.keep && a.http && small3[1] < 0:
+			small3[1] = i
+		case a.remove && small3[2] < 0:
+			small3[2] = i
+		}
+	}
+	if small3[0] < 0 || small3[1] < 0 || small3[2] < 0 {
+		panic("alphabet lacks a nil entry, a public http address or a private address")
+	}
+	var genLong func(cur []int)
+	genLong = func(cur []int) {
+		if len(cur) > maxLen {
+			lists = append(lists, append([]int(nil), cur...))
+		}
+		if len(cur) == 8 {
+			return
+		}
+		for _, i := range small3 {
+			genLong(append(cur, i))
+		}
+	}
+	genLong(nil)
 	mk := func(l []int) []multiaddr.Multiaddr {
 		if l == nil {
 			return nil
